@@ -13,7 +13,13 @@ class G:
         # class of finding K01d: a variable read inside a `let` body that sits inside the right-hand
         # side of an assignment to that same variable
         self.assign_stack = []  # [slot, entered_let]
-        self.k01d = False
+        self.assigned = set()   # slots that are the target of some set!
+        self.let_reads = set()  # slots read inside the body of some let
+        self.let_depth = 0
+
+    @property
+    def k01d(self):
+        return bool(self.assigned & self.let_reads)
 
     def int_(self, h, vs, d):
         """h: current frame height; vs: dict slot -> 'int'|'bool' of named slots."""
@@ -34,8 +40,8 @@ class G:
             return "(c %d)" % n, str(n)
         if k == "var":
             i = r.choice(ints)
-            if any(a[0] == i and a[1] for a in self.assign_stack):
-                self.k01d = True
+            if self.let_depth > 0:
+                self.let_reads.add(i)
             return "(l %d)" % i, "x%d" % i
         if k == "prim":
             op, sop = r.choice([("add", "+"), ("sub", "-"), ("mul", "*")])
@@ -53,7 +59,9 @@ class G:
             saved = [a[1] for a in self.assign_stack]
             for a in self.assign_stack:
                 a[1] = True
+            self.let_depth += 1
             b = self.int_(h + 1, vs2, d - 1)
+            self.let_depth -= 1
             for a, sv in zip(self.assign_stack, saved):
                 a[1] = sv
             return "(let %s %s)" % (e[0], b[0]), "(let ((x%d %s)) %s)" % (h, e[1], b[1])
@@ -63,12 +71,14 @@ class G:
             return "(seq %s %s)" % (a[0], b[0]), "(begin %s %s)" % (a[1], b[1])
         if k == "set":
             i = r.choice(ints)
+            self.assigned.add(i)
             self.assign_stack.append([i, False])
             e = self.int_(h, vs, d - 1)
             self.assign_stack.pop()
             return "(set %d %s)" % (i, e[0]), "(set! x%d %s)" % (i, e[1])
         if k == "setseq":
             i = r.choice(ints)
+            self.assigned.add(i)
             self.assign_stack.append([i, False])
             e = self.int_(h, vs, d - 1)
             self.assign_stack.pop()
